@@ -506,7 +506,8 @@ class C13(runner.Check):
             'batching, shorthand expansion, add-then-remove detours) x histories of 2-10 triggers with scripted '
             'condition outcomes; plus hierarchical descriptions (2-4 top states, depth <=3, compounds with local '
             'transitions and exits) x 4 scripts (children/states key, NestedState objects, bare names, joined names '
-            'created later, embedded machine with remap vs explicit form); non-trivial = at least 3 distinct scripts '
+            'created later, embedded machine with remap vs explicit form; the machine-level family "every nested state -> itself" spelled out / '
+            "as add_transition(ev, '*', '=') / with the shorthand on a subclass that renames wildcard_all and wildcard_same); non-trivial = at least 3 distinct scripts "
             'and an executed transition; distinct = different (ops or tree, history, options)')
     trusted = ('hand-written model lean/Model/Build.lean tied to /repo by structural equality on every generated script',
                'harness/build13.py: variant generator (its expansions are re-checked by the model and the real classes), '
